@@ -449,14 +449,14 @@ pub fn def() -> PropertyDef {
             sub(
                 "R/histories-x-threads",
                 no_fixed,
-                (240, 8000),
+                (800, 10_000),
                 |ctx: &RunCtx, _: Option<&()>| sched_strategy(if ctx.tier == Tier::Quick { 8 } else { 16 }),
                 oracle,
             ),
             sub(
                 "R/cold-start-children",
                 |ctx: &RunCtx| {
-                    let n = if ctx.tier == Tier::Quick { 24 } else { 400 };
+                    let n = if ctx.tier == Tier::Quick { 48 } else { 600 };
                     (0..n)
                         .map(|i| {
                             let x = mix(ctx.seed ^ 0xc01d, i as u64);
